@@ -5,6 +5,7 @@ import ast
 import itertools
 
 from ..core import Ctx
+from ..loader import AnalysisError
 from ..dectab import Abstract, DTop, Interp, Raises
 from ..symex import SUMMARIZER, expand, strip_ifexp_paths, u
 
@@ -28,6 +29,7 @@ def run(ctx: Ctx):
     ctx.not_decided = ["'equals the measure of the merged category in the data' as a data operation: it follows from subtotal algebra + block uniformity + base blocks, an argument, not a check"]
     algebra(ctx)
     signed_sums(ctx)
+    no_index_overwrite(ctx)
     base_flags(ctx)
     index_resolution(ctx)
     flags(ctx)
@@ -400,3 +402,48 @@ def wave_diff(ctx: Ctx):
             ctx.check_expr("wave-diff.formula", f"{MS}::WaveDiffSubtotal.{member}", leaves[0], want, "count_A/base_A - count_S/base_S")
         else:
             ctx.undecided("wave-diff.formula", f"{MS}::WaveDiffSubtotal.{member}", f"{len(leaves)} percentage-difference leaves", want)
+
+
+# --------------------------------------------------------------------------- accumulate, never overwrite
+_POSITIVE_CONTROL = """
+def _subtotal_value(self, subtotal):
+    signs = np.zeros(len(self._base_values))
+    signs[subtotal.addend_idxs] = 1
+    signs[subtotal.subtrahend_idxs] = -1
+    return np.sum(signs * self._base_values)
+"""
+
+
+def _index_array_stores(fn: ast.AST):
+    """Plain stores `X[...idxs...] = v` whose subscript mentions an addend / subtrahend index array."""
+    out = []
+    for n in ast.walk(fn):
+        if isinstance(n, ast.Assign):
+            for t in n.targets:
+                if isinstance(t, ast.Subscript) and any(k in u(t.slice) for k in ("addend_idxs", "subtrahend_idxs", "addend_ids", "subtrahend_ids")):
+                    out.append((n.lineno, u(t)))
+    return out
+
+
+def no_index_overwrite(ctx: Ctx):
+    """`a[idxs] = v` does not accumulate: where the positive and the negative term lists overlap (which the
+    property allows) the later store wins and the earlier term is lost.  A subtotal must be formed by sums over
+    the two index arrays, so no subtotal class may store through an addend / subtrahend index array."""
+    control = _index_array_stores(ast.parse(_POSITIVE_CONTROL))
+    if len(control) != 2:
+        raise AnalysisError("no-overwrite rule: the positive control is no longer recognised")
+    n_fn = 0
+    for short in (MS, SI):
+        mod = ctx.repo.module(short)
+        for ci in mod.classes.values():
+            for m in ci.members.values():
+                n_fn += 1
+                stores = _index_array_stores(m.node)
+                where = f"{short}::{ci.name}.{m.name}"
+                if stores:
+                    ctx.violated("signed-merge.no-overwrite", where, [t for _l, t in stores], "sum over the addend index array minus sum over the subtrahend index array",
+                                 "assignment through an index array overwrites instead of accumulating: a category listed in both the positive and the negative terms is counted once with the later sign")
+    ctx.count("subtotal-class functions scanned for index-array stores", n_fn)
+    ctx.require_min("subtotal-class functions scanned for index-array stores", 30)
+    if not any(o.rule.endswith("no-overwrite") and o.status == "violated" for o in ctx.obligations):
+        ctx.held("signed-merge.no-overwrite", f"{MS}, {SI}: every subtotal class", "no store through an addend / subtotal index array", "", "positive control recognised (2 stores)")
